@@ -50,6 +50,11 @@ use std::fs;
 use std::io::{self, Read, Seek, SeekFrom, Write};
 use std::mem::size_of;
 use std::path::{Path, PathBuf};
+#[cfg(cfb_verif)]
+use crate::internal::sync::{RwLock, RwLockReadGuard, RwLockWriteGuard};
+#[cfg(cfb_verif)]
+use std::sync::Arc;
+#[cfg(not(cfb_verif))]
 use std::sync::{Arc, RwLock, RwLockReadGuard, RwLockWriteGuard};
 
 use fnv::FnvHashSet;
@@ -62,6 +67,14 @@ use crate::internal::{
     ObjType, SectorInit, Sectors, Timestamp, Validation,
 };
 pub use crate::internal::{Entries, Entry, Stream, Version};
+
+/// Lock instrumentation for verification builds (`--cfg cfb_verif`).
+#[cfg(cfb_verif)]
+pub mod verif {
+    pub use crate::internal::sync::{
+        set_lock_observer, LockEvent, LockKind, LockPhase,
+    };
+}
 
 #[macro_use]
 mod internal;
